@@ -551,6 +551,59 @@ static int t_mpz_bits (const char *f, int budget)
   printf ("PASS %d\n", budget); return 0;
 }
 
+
+/* mpz_setbit / clrbit / combit and mpz_and / ior / xor against the two's-complement bit function, bit by bit (C10) */
+static int wf_z (const mpz_t z) { int n = abs (z->_mp_size); return n <= z->_mp_alloc && (n == 0 || z->_mp_d[n - 1] != 0); }
+static int t_mpz_bitops (const char *f, int budget)
+{
+  int three = !strcmp (f, "mpz_and") || !strcmp (f, "mpz_ior") || !strcmp (f, "mpz_xor");
+  for (int it = 0; it < budget; it++)
+    {
+      mpz_t a, b, r; mk_mpz (a, 5); mk_mpz (b, 5); mpz_init (r);
+      int n = abs (a->_mp_size);
+      if (n >= 2 && it % 3 == 1) { int hi = rnd64 () % n; for (int i = 0; i < hi; i++) a->_mp_d[i] = 0; }                   /* low zero limbs */
+      if (n >= 2 && it % 3 == 2) { int lo = 1 + rnd64 () % (n - 1); for (int i = lo; i < n; i++) a->_mp_d[i] = ~(L) 0; }     /* all-ones run up to the top */
+      if (three && it % 4 == 3 && n > 0)
+        { /* |b| = B^n - |a| (two's complement of a on n limbs), opposite sign: the +1 of the mixed-sign case carries into a new limb */
+          mpz_t t; mpz_init (t); mpz_setbit (t, 64UL * n); mpz_sub (t, t, a); if (a->_mp_size > 0) mpz_neg (t, t); else mpz_add (t, t, a), mpz_add (t, t, a); mpz_set (b, t); mpz_clear (t);
+          if (it % 8 == 3) mpz_swap (a, b);
+        }
+      if (three)
+        {
+          int alias = it % 5;       /* 0,1: distinct; 2: r == a; 3: r == b; 4: a == b */
+          mpz_t a0, b0; mpz_init_set (a0, a); mpz_init_set (b0, alias == 4 ? a : b);
+          mpz_ptr rr = alias == 2 ? a : alias == 3 ? b : r; mpz_srcptr bb = alias == 4 ? a : b;
+          if (!strcmp (f, "mpz_and")) mpz_and (rr, a, bb); else if (!strcmp (f, "mpz_ior")) mpz_ior (rr, a, bb); else mpz_xor (rr, a, bb);
+          unsigned long top = 64UL * (abs (a0->_mp_size) + abs (b0->_mp_size) + 2);
+          int bad = !wf_z (rr);
+          for (unsigned long k = 0; k < top && !bad; k++)
+            {
+              int x = ref_tcbit (a0, k), y = ref_tcbit (b0, k), w = f[4] == 'a' ? (x & y) : f[4] == 'i' ? (x | y) : (x ^ y);
+              if (ref_tcbit (rr, k) != w) bad = 1;
+            }
+          if (bad) { failed (f); show_z ("op1", a0); show_z ("op2", b0); show_z ("res", rr); printf (" alias=%d (two's-complement bits differ or result not normalised)\n", alias); return 1; }
+          mpz_clear (a0); mpz_clear (b0);
+        }
+      else
+        {
+          mpz_t a0; mpz_init_set (a0, a);
+          unsigned long sb = rnd64 () % (64 * (n + 2) + 1);
+          if (!strcmp (f, "mpz_setbit")) mpz_setbit (a, sb); else if (!strcmp (f, "mpz_clrbit")) mpz_clrbit (a, sb); else mpz_combit (a, sb);
+          unsigned long top = 64UL * (n + 4);
+          int bad = !wf_z (a);
+          for (unsigned long k = 0; k < top && !bad; k++)
+            {
+              int x = ref_tcbit (a0, k), w = k != sb ? x : f[4] == 's' ? 1 : f[5] == 'l' ? 0 : !x;
+              if (ref_tcbit (a, k) != w) bad = 1;
+            }
+          if (bad) { failed (f); show_z ("d", a0); printf (" bit=%lu", sb); show_z ("result", a); printf (" (two's-complement bits differ or result not normalised)\n"); return 1; }
+          mpz_clear (a0);
+        }
+      mpz_clear (a); mpz_clear (b); mpz_clear (r);
+    }
+  printf ("PASS %d\n", budget); return 0;
+}
+
 /* mpf_cmp against the sign of an exact difference computed on integers: both operands scaled to a common exponent */
 static void mk_mpf (mpf_t f, int maxn)
 {
@@ -1008,6 +1061,7 @@ int main (int argc, char **argv)
   if (!strcmp (f, "mpz_neg") || !strcmp (f, "mpz_abs") || !strcmp (f, "mpz_set") || !strcmp (f, "mpz_swap")) return t_mpz_copy (f, budget);
   if (!strcmp (f, "mpz_cmp") || !strcmp (f, "mpz_cmpabs")) return t_mpz_cmp (f, budget);
   if (!strcmp (f, "mpz_tstbit") || !strcmp (f, "mpz_scan0") || !strcmp (f, "mpz_scan1")) return t_mpz_bits (f, budget);
+  if (!strcmp (f, "mpz_setbit") || !strcmp (f, "mpz_clrbit") || !strcmp (f, "mpz_combit") || !strcmp (f, "mpz_and") || !strcmp (f, "mpz_ior") || !strcmp (f, "mpz_xor")) return t_mpz_bitops (f, budget);
   if ((!strncmp (f, "mpz_fdiv", 8) || !strncmp (f, "mpz_cdiv", 8) || !strncmp (f, "mpz_tdiv", 8)) && strlen (f) >= 2 && !strcmp (f + strlen (f) - 2, "ui")) return t_mpz_div_ui (f, budget);
   if (!strncmp (f, "mpz_fdiv", 8) || !strncmp (f, "mpz_cdiv", 8) || !strcmp (f, "mpz_mod")) return t_mpz_div (f, budget);
   if (!strncmp (f, "mpz_cmp", 7) || !strncmp (f, "mpz_fits", 8) || !strncmp (f, "mpz_get", 7) || !strncmp (f, "mpz_set_", 8)) return t_mpz_c11 (f, budget);
